@@ -312,10 +312,19 @@ def _renames(ck: Checker) -> None:
         ck.require(okpop, "C08.renames", fn, n, "the paired deletion is popped from the queue looked up (not removed) under addition.new.hash_info",
                    "the paired deletion is not obtained by a removing pop from the per-hash queue found under addition.new.hash_info (peek duplicates a key; popping the dict entry loses the queue)", construct=f"{norm(c)} / deletion source")
     # table keyed by deletion.old.hash_info
-    fills = [(n, c) for n in g.nodes.values() for c in calls_at(n) if is_method_call(c, "append", "appendleft") and isinstance(c.func.value, ast.Subscript) and norm(c.func.value.value) == table]
+    def _slot(c):
+        """key expression when c appends to table[key] / table.setdefault(key, <empty>)"""
+        r = c.func.value
+        if isinstance(r, ast.Subscript) and norm(r.value) == table:
+            return r.slice
+        if isinstance(r, ast.Call) and is_method_call(r, "setdefault") and norm(r.func.value) == table and r.args:
+            return r.args[0]
+        return None
+
+    fills = [(n, c) for n in g.nodes.values() for c in calls_at(n) if is_method_call(c, "append", "appendleft") and _slot(c) is not None]
     ck.floor("C08.renames", len(fills), 1, "fills of the per-hash deletion table")
     for n, c in fills:
-        key = c.func.value.slice
+        key = _slot(c)
         keyalts = [norm(z) for z in expand1(prog, fn, key, levels=2)]
         dv = norm(c.args[0]) if c.args else "?"
         ck.require(any(f"{dv}.old.hash_info" in k for k in keyalts), "C08.renames", fn, n, "deletions are filed under deletion.old.hash_info", f"deletion table key is {keyalts}, not the deleted entry's old hash")
